@@ -651,6 +651,9 @@ def check_C10(history):
             continue
         invalid = scen.get("expect_value_error")
         execs = executions(events)
+        if ending["how"] == "raised" and ending.get("error_type") == "EmptyCartesianProduct" and not any(
+                ev["kind"] == "worker.begin" for ev in events):
+            continue  # the selection itself was rejected while parsing
         if invalid:
             ok = ending["how"] == "raised" and ending.get("error_type") == "ValueError"
             if not ok:
